@@ -11,10 +11,10 @@ CONSTANTS
   AuctionImpl = "intended"
   Resolution = "locked"
   MaxRounds = 0
-  ScenLen = 9
+  ScenLen = 6
   MaxSignFail = 1
   History = FALSE
   Matrix = FALSE
-  Script = "none"
+  Script = "window"
 INVARIANTS Emit
 CHECK_DEADLOCK FALSE
